@@ -56,3 +56,17 @@ func (k *knownFindings) has(match string) (string, bool) {
 	}
 	return "", false
 }
+
+// probeDocuments: the minimal failing documents recorded with the findings that apply to this property;
+// document-driven checks run them first, so every listed finding is exercised (and reported) on every run.
+func (k *knownFindings) probeDocuments() [][]byte {
+	var out [][]byte
+	for _, e := range k.entries {
+		if m, ok := e.Probe.(map[string]any); ok {
+			if d, ok := m["document"].(string); ok && d != "" {
+				out = append(out, []byte(d))
+			}
+		}
+	}
+	return out
+}
